@@ -105,6 +105,18 @@ where
     serde_json::from_str(&json).map_err(Into::into)
 }
 
+/// Truncate a string to at most `max_len` bytes without splitting a character.
+pub fn truncate_at_char_boundary(s: &str, max_len: usize) -> &str {
+    if s.len() <= max_len {
+        return s;
+    }
+    let mut end = max_len;
+    while !s.is_char_boundary(end) {
+        end -= 1;
+    }
+    &s[..end]
+}
+
 pub fn get_current_exe_dir() -> PathBuf {
     let mut path = std::env::current_exe().unwrap();
     path.pop();
